@@ -102,6 +102,11 @@ for s in seeds:
     res = "obsolete" if s.get("status") == "obsolete" else ("**reported**" if "exit=1" in s.get("check_result", "") else "not detected")
     rows.append(f"| {s['id']} | {s.get('summary','').replace('|','/')[:260]} | {res} | {', '.join(s.get('detected_by') or []) or '—'} | {s.get('note','').replace('|','/')[:300]} |")
 tail = tail.replace("{SEEDS_INTRO}", intro).replace("{SEEDS}", "\n".join(rows))
+rrows = ["| refactoring | what was rewritten | all checks |", "|---|---|---|"]
+for p in sorted(glob.glob(f"{V}/refactors/*/meta.json")):
+    m = json.load(open(p)); rid = os.path.basename(os.path.dirname(p))
+    rrows.append(f"| {rid} | {m.get('summary','').replace('|','/')[:230]} | {m.get('result','silent')} |")
+tail = tail.replace("{REFACTORS}", "\n".join(rrows))
 out.append(tail)
 out.append(rd("design/appendix_a.md"))
 open(f"{V}/DESIGN.md", "w").write("\n".join(out))
